@@ -461,6 +461,7 @@ func (h *stmtHarness) Run(t *testing.T, ci any) *Outcome {
 		model[g.Name] = mg
 	}
 	kr := NewRand(c.Knobs.Sched, 4)
+	execSeq = 0
 	var dets, sig []string
 	changed := false
 	for i, st := range c.Stmts {
